@@ -298,6 +298,8 @@ class Extractor:
                 self._open(word, bare, quoted)
             elif word == 'expanded-impl':
                 self._expanded_impl(quoted[0])
+            elif word == 'typeinfo-impls':
+                self._typeinfo_impls(bare[0])
             elif word in ('endimpl', 'endtrait'):
                 self.out.emit('}', 'repo', None, None, None)
                 self.container = None
@@ -454,6 +456,61 @@ class Extractor:
         text = global_rules(text, 'rustc-expanded:src/lib.rs', 0, self.log)
         self.out.emit(text, 'repo', 'expanded::' + norm(header), 'rustc -Zunpretty=expanded', None)
         self.log.items.append(dict(kind='expanded-impl', name=norm(header), file='rustc -Zunpretty=expanded', line=None))
+
+    # the transparent wrappers the statement of C05 allows, and the type each must share its id with
+    ALIASES = {'Box<T>': 'T', 'Rc<T>': 'T', 'Arc<T>': 'T', '&T': 'T', '&mut T': 'T', 'Vec<T>': '[T]',
+               'VecDeque<T>': '[T]', 'String': 'str', 'PhantomData<T>': 'PhantomData<()>'}
+
+    def _typeinfo_impls(self, modname):
+        """one block per `impl TypeInfo for X` of the (macro-expanded) module: header and `type Identity` copied
+        from the source, forwarding bodies copied and verified, plus one generic identity obligation each"""
+        src = self.expanded_provider()
+        mod = src.find('mod', modname)
+        impls = [x for x in src.items(mod.body_open + 1, mod.end - 1) if x.kind == 'impl' and ' TypeInfo for ' in x.header]
+        if not impls:
+            raise LostAnchor('no TypeInfo impls found in expanded mod %s' % modname)
+        k = 0
+        for it in impls:
+            if not cfg_active(it.attrs, self.cfg):
+                continue
+            m = re.match(r'^impl(?:<(.*?)>)? TypeInfo for (.*?)(?: where(?: (.*))?)?$', it.header)
+            if not m:
+                raise LostAnchor('cannot parse impl header `%s`' % it.header)
+            generics, selfty, where = m.group(1) or '', m.group(2).strip(), (m.group(3) or '').rstrip(',')
+            lo, hi = it.body_span()
+            ident = src.find('type', 'Identity', lo + 1, hi)
+            ident_txt = norm(src.text[ident.attr_end:ident.end])
+            fn = src.find('fn', 'type_info', lo + 1, hi)
+            fn_txt = src.text[fn.attr_end:fn.end]
+            k += 1
+            alias = self.ALIASES.get(selfty)
+            g = ('<%s>' % generics) if generics else ''
+            w = (' where %s' % where) if where else ''
+            name = 'TypeInfo for %s' % selfty
+            self.out.emit('impl%s TypeInfo for %s%s {' % (g, selfty, ('\nwhere ' + where) if where else ''), 'repo', name, 'rustc-expanded:src/impls.rs', None)
+            self.out.emit('    ' + ident_txt, 'repo', name, 'rustc-expanded:src/impls.rs', None)
+            if alias and selfty != 'PhantomData<T>':
+                self.out.emit('    closed spec fn spec_info() -> Type<MetaForm> { <%s as TypeInfo>::spec_info() }' % alias, 'tmpl', name)
+                self.out.emit('    ' + global_rules(fn_txt, 'src/impls.rs', 0, self.log, keep_derive=False), 'repo', name + '::type_info', 'rustc-expanded:src/impls.rs', None)
+                self.obligation_items.append(name + '::type_info')
+                self.log.items.append(dict(kind='fn', name=name + '::type_info', file='src/impls.rs (expanded)', line=None, external=False,
+                                           declared_only=False, ghost_lines=0, sha=hashlib.sha1(norm(fn_txt).encode()).hexdigest()[:12]))
+            else:
+                if selfty == 'PhantomData<T>':
+                    body = fn_txt[fn_txt.index('{'):]
+                    if re.search(r'\bT\b', ''.join(c for c, mk in zip(body, code_mask(body)) if mk)):
+                        raise LostAnchor('PhantomData<T>::type_info mentions T: its result may depend on T (C16 coherence not decidable syntactically)')
+                    self.out.emit('    closed spec fn spec_info() -> Type<MetaForm> { phantom_info() }', 'tmpl', name)
+                else:
+                    self.out.emit('    closed spec fn spec_info() -> Type<MetaForm> { info_of_type::<Self>() }', 'tmpl', name)
+                sig = fn_txt[:fn_txt.index('{')].rstrip()
+                self.out.emit('    #[verifier::external_body]\n    %s { unimplemented!() }' % sig, 'repo', name, 'rustc-expanded:src/impls.rs', None)
+            self.out.emit('}', 'repo', name)
+            rhs = ('meta_id::<%s>()' % alias) if alias else ('type_id_of::<%s>()' % selfty)
+            oname = 'identity::%s' % selfty
+            self.out.emit('proof fn identity_obligation_%d%s()%s\n    ensures meta_id::<%s>() == %s,\n{}' % (k, g, w, selfty, rhs),
+                          'tmpl', 'tmpl::' + oname)
+            self.log.items.append(dict(kind='identity', name=oname, alias=bool(alias), identity=ident_txt, file='src/impls.rs', line=None))
 
     def _assoc(self, name):
         word, it, src, rel, header = self.container
